@@ -118,6 +118,10 @@ def gen_call(rng, frame, level=0, kind=None, size=None):
             for k in range(len(rows)):
                 if rng.random() < p:
                     v, fam = gen_unseen(rng, col, level)
+                    if col['stype'] == 'multicategorical' and col['r'].get('pad') is not None and \
+                            not mg.sep_roundtrip(col['r'], list(col['cells'][rows[k]] or []) + [v]):
+                        # (under a separator of several characters the extended text must still denote its token list)
+                        continue
                     call['inject'].append([col['name'], k, v])
                     call['unseen'].append(fam)
         if call['inject']:
@@ -128,6 +132,130 @@ def gen_call(rng, frame, level=0, kind=None, size=None):
         call['dfperm'] = rng.sample(range(k), k)
         call['twin'] = len(rows) <= 64 and rng.random() < 0.3
     return call
+
+
+def gen_stats_rows(rng, frame):
+    """a row multiset of the frame whose statistics are 'previously computed' ones (last week's table, the training part):
+    few distinct rows with repeats, so that counts - and with them the frequency ranks - differ from the frame's own; every
+    plain embedding column keeps one vector (a column without any has no width)"""
+    n = frame['n']
+    m = rng.choice([1, 2, 3, max(1, n // 2), n])
+    base = [rng.randrange(n) for _ in range(m)]
+    rows = [rng.choice(base) for _ in range(rng.randint(m, 2 * m + 1))]
+    for col in frame['cols']:
+        if col['stype'] == 'embedding' and all(col['cells'][i] is None for i in rows):
+            rows.append(next(i for i, c in enumerate(col['cells']) if c is not None))
+    return rows
+
+
+CACHE_FILES = ['missing', 'own', 'foreign']          # state of the cache file before the call under test
+CACHE_STATS = ['none', 'own', 'foreign']             # the col_stats argument of the call under test
+CACHE_PATHS = ['abs', 'abs', 'pathlib', 'bare', 'rel', 'nested-abs']
+
+
+def gen_cache(rng, frame):
+    """one point of materialize(path=..., col_stats=...) x state of the cache file"""
+    return {'file': rng.choice(CACHE_FILES), 'stats': rng.choice(CACHE_STATS), 'rows': gen_stats_rows(rng, frame),
+            'shape': rng.choice(CACHE_PATHS), 'again': rng.random() < 0.4}
+
+
+def run_cache(frame, labels, combo, own_view, own_stats):
+    """materialize(path x col_stats) on a fresh Dataset of the frame, the cache file missing / written by a plain
+    materialization of the same frame / written under other ('foreign') statistics.  What governs the result: the file when
+    it exists (the frame and the statistics stored together), else the supplied statistics, else the frame's own.  Judged
+    straight from the text: (a) the dataset's statistics are the governing ones, (b) every cell of the TensorFrame is the
+    encoding of the raw cell under them, (c) converting the dataset's own frame reproduces its TensorFrame, (d) a missing
+    file is written, reloads equal and serves a later materialization whatever statistics that one is handed, (e) the
+    supplied statistics object is not modified.  -> None | (key, message, expected, actual)"""
+    import os
+    import pathlib
+    import shutil
+    import tempfile
+    import torch_frame
+    from torch_frame.data import Dataset
+
+    def fresh():
+        df = mg.render(frame, labels)
+        c2s, kw, _ = mg.dataset_kwargs(frame)
+        return Dataset(df, c2s, **kw)
+    tmp = tempfile.mkdtemp(prefix='c04cache_')
+    cwd = os.getcwd()
+    try:
+        shape = combo['shape']
+        real_path = os.path.join(tmp, 'cache.pt')
+        if shape == 'nested-abs':
+            os.makedirs(os.path.join(tmp, 'a', 'b c'))
+            real_path = os.path.join(tmp, 'a', 'b c', 'cache.v1.pt')
+        elif shape == 'rel':
+            os.makedirs(os.path.join(tmp, 'sub'))
+            real_path = os.path.join(tmp, 'sub', 'cache.pt')
+        if shape in ('bare', 'rel'):
+            os.chdir(tmp)
+        arg = {'abs': real_path, 'nested-abs': real_path, 'pathlib': pathlib.Path(real_path), 'bare': 'cache.pt',
+               'rel': os.path.join('sub', 'cache.pt')}[shape]
+        # previously computed statistics: those of a row multiset of the same table
+        sub = call_frame(frame, {'rows': combo['rows']})
+        fds, _ = mg.make_dataset(sub)
+        fds.materialize()
+        foreign = fds.col_stats
+        foreign_canon = mg.canon_stats_full(foreign)
+        stats_of = {'own': (mg.model_stats, own_stats), 'foreign': (mg.model_stats, foreign)}
+        if combo['file'] == 'own':
+            fresh().materialize(path=arg)
+        elif combo['file'] == 'foreign':
+            fresh().materialize(path=arg, col_stats=copy.deepcopy(foreign))
+        if combo['file'] != 'missing' and not os.path.isfile(real_path):
+            return ('materialize-args/cache-not-written', f'materialize(path={arg!r}) did not write {real_path}', 'a file', None)
+        supplied = None if combo['stats'] == 'none' else copy.deepcopy(stats_of[combo['stats']][1])
+        supplied_before = None if supplied is None else mg.canon_stats_full(supplied)
+        ds = fresh()
+        ds.materialize(path=arg, col_stats=supplied)
+        governing = combo['file'] if combo['file'] != 'missing' else ('own' if combo['stats'] == 'none' else combo['stats'])
+        gov = own_stats if governing == 'own' else foreign
+        what = f"materialize(path=<{shape}>, col_stats=<{combo['stats']}>) with the cache file {combo['file']}"
+        got_stats = mg.canon_stats_full(ds.col_stats)
+        want_stats = mg.canon_stats_full(gov)
+        if got_stats != want_stats:
+            return ('materialize-args/stats', f'{what}: dataset.col_stats are not the {governing} statistics', want_stats, got_stats)
+        view = mg.canon_tf(ds.tensor_frame)
+        v = c01.check_cells(frame, view, mg.model_stats(gov), what, fitted=True)
+        if v:
+            return (f'materialize-args/{v[0]}', v[1], v[2], v[3])
+        if governing == 'own' and view != own_view:
+            return ('materialize-args/frame', f'{what}: the TensorFrame differs from a plain materialization', 'the same frame',
+                    'different')
+        again = mg.canon_tf(ds.convert_to_tensor_frame(ds.df))
+        if again != view:
+            return ('materialize-args/own-frame-conversion', f'{what}: converting the dataset\'s own frame does not reproduce '
+                    f'its TensorFrame', {k: view[k] for k in ('cells', 'y')}, {k: again[k] for k in ('cells', 'y')})
+        if supplied is not None and mg.canon_stats_full(supplied) != supplied_before:
+            return ('materialize-args/supplied-stats-modified', f'{what}: the col_stats argument was modified', supplied_before,
+                    mg.canon_stats_full(supplied))
+        if not os.path.isfile(real_path):
+            return ('materialize-args/cache-not-written', f'{what}: no file at {real_path} afterwards', 'a file', None)
+        ltf, lstats = torch_frame.load(real_path)
+        if mg.canon_tf(ltf) != view or mg.canon_stats_full(lstats) != got_stats:
+            return ('materialize-args/cache-content', f'{what}: the cache file does not hold the dataset\'s frame and statistics',
+                    'equal', 'different')
+        if combo.get('again'):
+            # a later session on the same path, handed the OTHER statistics (or none): the cache governs
+            other = {'none': foreign, 'own': foreign, 'foreign': own_stats}[combo['stats']]
+            ds3 = fresh()
+            ds3.materialize(path=arg, col_stats=copy.deepcopy(other))
+            v3 = mg.canon_tf(ds3.tensor_frame)
+            if v3 != view or mg.canon_stats_full(ds3.col_stats) != got_stats:
+                return ('materialize-args/later-session', f'{what}; then a new Dataset.materialize(path, other statistics): frame or '
+                        f'statistics differ from what the first session cached', 'the cached frame and statistics', 'different')
+            if mg.canon_tf(ds3.convert_to_tensor_frame(ds3.df)) != v3:
+                return ('materialize-args/own-frame-conversion', f'{what}; then a new Dataset.materialize(path, other statistics): '
+                        f'converting the dataset\'s own frame does not reproduce its TensorFrame', 'equal', 'different')
+        if foreign_canon != mg.canon_stats_full(fds.col_stats):
+            return ('materialize-args/donor-stats-modified', f'{what}: the statistics of the donor dataset changed', 'unchanged',
+                    'changed')
+        return None
+    finally:
+        os.chdir(cwd)
+        shutil.rmtree(tmp, ignore_errors=True)
 
 
 def case_feasible(case):
@@ -158,7 +286,14 @@ class C04(core.Check):
             'longer than every fitted value by a ladder size, integer successor / predecessor / > 2^53); 30% of the calls lack '
             'the target column; 30% of the histories read every returned frame again after the last call, 12% convert another '
             'dataset (own separators, shared raw texts) in between, freshly rendered call frames are compared with a twin '
-            'afterwards. Compared with the Lean state '
+            'afterwards; 15% of the histories hand the converter the dataset\'s OWN DataFrame object; in 20% (50% with a numerical '
+            'target) a caller writes in place into tensors it was handed - y / features of converter results and / or of the '
+            'materialized frame - after which the dataset\'s frame and statistics, the other results, the DataFrame (against an '
+            'untouched twin) and a last conversion of the dataset\'s own frame are observed again; 6% run one point of '
+            'materialize(path x col_stats) x cache file {missing, written by a plain materialization, written under the statistics of '
+            'a row multiset of the table} x 6 path shapes, optionally followed by a later session that supplies the other statistics '
+            '(judged by the oracle: the dataset\'s statistics are the governing ones, its cells their encoding, converting its own '
+            'frame reproduces its TensorFrame, the file holds both). Compared with the Lean state '
             'machine: every cell of every returned frame, y, the converter\'s col_names_dict after every call, the '
             'frame and statistics under supplied col_stats; plus convert(df.iloc[rows]) == tensor_frame[rows] through '
             'the library. Non-trivial = at least one call returned a frame; distinct = hash of the case.')
@@ -267,6 +402,36 @@ class C04(core.Check):
                     ncalls = min(ncalls, 2)
                 calls = [gen_call(rng, frame, lvl) for _ in range(ncalls)]
             case = {'frame': frame, 'labels': labels, 'supplied': rng.random() < 0.5, 'calls': calls}
+            small = mg.frame_items(frame) < 3000 and len(calls) <= 8
+            if small and rng.random() < 0.15:
+                # the dataset's own frame object handed to the converter (not a selection / copy of it)
+                c = gen_call(rng, frame, lvl, 'all')
+                c.update(how='self', inject=[], unseen=[], drop_target=False)
+                for key in ('labels', 'dfperm', 'twin'):
+                    c.pop(key, None)
+                calls.insert(rng.randint(0, len(calls)), c)
+            tcol = next((c for c in frame['cols'] if c['name'] == frame['target']), None)
+            if small and rng.random() < (0.5 if tcol is not None and tcol['stype'] == 'numerical' else 0.2):
+                # a caller writes in place into tensors it was handed: results of converter calls and / or the dataset's
+                # materialized frame; afterwards the dataset's own state, the other results, the input DataFrame (against an
+                # untouched twin) and a last conversion of the dataset's own frame are observed again
+                w = []
+                for _ in range(rng.choice([1, 1, 2, 3])):
+                    w.append({'after': rng.randint(0, len(calls)), 'part': rng.choice(['y', 'y', 'feat', 'all'])})
+                if frame['target'] is not None and rng.random() < 0.5:
+                    w[0]['part'] = 'y'
+                case['writes'] = sorted(w, key=lambda x: x['after'])
+                c = gen_call(rng, frame, lvl, 'all')
+                c.update(how=rng.choice(['self', 'self', 'fresh', 'iloc']), inject=[], unseen=[], drop_target=False)
+                if c['how'] == 'fresh':
+                    c.update(labels=mg.gen_labels(rng, frame['n'], rng.choice(['range', 'perm', 'offset'])),
+                             dfperm=rng.sample(range(len(frame['cols'])), len(frame['cols'])), twin=False)
+                else:
+                    for key in ('labels', 'dfperm', 'twin'):
+                        c.pop(key, None)
+                calls.append(c)
+            if small and mg.frame_items(frame) < 1500 and rng.random() < 0.06:
+                case['cache'] = gen_cache(rng, frame)
             if rng.random() < 0.3:
                 case['reinspect'] = True        # every returned frame is read again after the last call
             if rng.random() < 0.12 and mg.frame_items(frame) < 2000:
@@ -288,6 +453,7 @@ class C04(core.Check):
             return 'raises'
         first_view = mg.canon_tf(ds.tensor_frame)
         first_stats = mg.canon_stats_full(ds.col_stats)
+        ds_first_stats = copy.deepcopy(ds.col_stats)
         if case['supplied']:
             try:
                 df = mg.render(frame, case['labels'])
@@ -304,6 +470,13 @@ class C04(core.Check):
         side['cats'] = {c: s['cats'] for c, s in out['stats'].items()}
         conv = ds.convert_to_tensor_frame
         base_df = ds.df
+        writes = case.get('writes') or []
+        # (once a caller has written into the dataset's own frame, the library's == is asked against a pristine copy)
+        ref_tf = copy.deepcopy(ds.tensor_frame) if any(w['after'] == 0 for w in writes) else ds.tensor_frame
+        written = set()
+        for w in writes:
+            if w['after'] == 0:
+                side['tensors_written'] = side.get('tensors_written', 0) + mg.scribble(ds.tensor_frame, w['part'])
         other = None
         if case.get('interleave'):
             try:
@@ -313,10 +486,12 @@ class C04(core.Check):
             except Exception as e:   # noqa
                 side['errors'].append(f'interleaved dataset: {type(e).__name__}: {str(e)[:200]}')
         kept = []
-        for call in case['calls']:
+        for kc, call in enumerate(case['calls']):
             cf = call_frame(frame, call)
             try:
-                if call['how'] == 'iloc':
+                if call['how'] == 'self':
+                    df = base_df
+                elif call['how'] == 'iloc':
                     df = base_df.iloc[call['rows']]
                 elif call['how'] == 'take':
                     df = base_df.take(call['rows'])
@@ -327,10 +502,14 @@ class C04(core.Check):
                 tf = conv(df)
                 view = mg.canon_tf(tf)
                 out['calls'].append({'ok': {'tf': view, 'convNames': mg.canon_names(conv.col_names_dict)}})
-                if case.get('reinspect'):
+                if case.get('reinspect') or writes:
                     kept.append((tf, view))
                 if call['how'] != 'fresh' and not call['drop_target'] and not c02.nan_target(frame):
-                    side['lib_eq'].append((call['rows'][:40], bool(tf == ds.tensor_frame[call['rows']])))
+                    side['lib_eq'].append((call['rows'][:40], bool(tf == ref_tf[call['rows']])))
+                for w in writes:
+                    if w['after'] == kc + 1:
+                        side['tensors_written'] = side.get('tensors_written', 0) + mg.scribble(tf, w['part'])
+                        written.add(len(kept) - 1)
                 if call.get('twin'):
                     bad = mg.frames_identical(df, mg.render(cf, call['labels'], call['dfperm']))
                     if bad:
@@ -345,9 +524,34 @@ class C04(core.Check):
                     side['errors'].append(f'interleaved converter: {type(e).__name__}: {str(e)[:200]}')
         for k, (tf, view) in enumerate(kept):
             # aliasing of output buffers: a frame returned earlier must still read the same after the later calls
-            if mg.canon_tf(tf) != view:
-                side['reinspect'] = f'the frame returned by call {k + 1} reads differently after the later calls'
+            if k not in written and mg.canon_tf(tf) != view:
+                side['reinspect'] = f'the frame returned by call {k + 1} reads differently after the later calls' + \
+                    (' and the in-place writes into OTHER returned frames' if writes else '')
                 break
+        if writes:
+            # what a write into a returned tensor must leave alone: the dataset's own frame (unless that was the one written
+            # into), its statistics, the DataFrame it was built from (against an untouched twin)
+            try:
+                if not any(w['after'] == 0 for w in writes) and mg.canon_tf(ds.tensor_frame) != out['tf']:
+                    side['write'] = ('alias/write-reaches-dataset-frame', 'after in-place writes into frames returned by the '
+                                     'converter, dataset.tensor_frame reads differently')
+                elif mg.canon_stats_full(ds.col_stats) != first_stats:
+                    side['write'] = ('alias/write-reaches-col-stats', 'after in-place writes into returned tensors, '
+                                     'dataset.col_stats differ')
+                else:
+                    bad = mg.frames_identical(ds.df, mg.render(frame, case['labels']))
+                    if bad:
+                        side['write'] = ('alias/write-reaches-input-frame', 'after in-place writes into returned tensors the '
+                                         f'dataset\'s DataFrame differs from an untouched twin: {bad}')
+            except Exception as e:   # noqa
+                side['write'] = ('alias/write-observation-raises', f'{type(e).__name__}: {str(e)[:160]}')
+        if case.get('cache'):
+            try:
+                side['cache'] = run_cache(frame, case['labels'], case['cache'], first_view, ds_first_stats)
+            except Exception as e:   # noqa
+                side['cache'] = ('materialize-args/raises', f"materialize(path, col_stats) point {case['cache']['file']}/"
+                                 f"{case['cache']['stats']}/{case['cache']['shape']} raises {type(e).__name__}: {str(e)[:200]} @ "
+                                 f"{traceback.format_exc().splitlines()[-3].strip()[:100]}", 'no exception', type(e).__name__)
         res = {'ok': out}
         if not case_feasible(case):
             side['verdict'] = self.judge(case, res)
@@ -458,6 +662,11 @@ class C04(core.Check):
                                       case, True, False)
         if side.get('reinspect'):
             return core.Violation('alias/returned-frame-changed', side['reinspect'], case, 'the same cells', 'different')
+        if side.get('write'):
+            return core.Violation(side['write'][0], side['write'][1], case, 'unchanged', 'changed')
+        if side.get('cache'):
+            k, what, exp, got = side['cache']
+            return core.Violation(k, what, case, exp, got)
         if side.get('input_modified'):
             return core.Violation('alias/input-frame-modified', f'the converter modified the DataFrame it was given: '
                                   f'{side["input_modified"]}', case, 'an unchanged DataFrame', side['input_modified'])
@@ -487,6 +696,17 @@ class C04(core.Check):
             labs.append('alias:returned-frames-reinspected')
         if case.get('interleave'):
             labs.append('history:other-dataset-converted-in-between')
+        for w in case.get('writes') or []:
+            labs.append('alias:in-place-write-into:' + ('materialized-frame' if w['after'] == 0 else 'converter-result') + ':' + w['part'])
+            tcol = next((c for c in frame['cols'] if c['name'] == frame['target']), None)
+            if tcol is not None and w['part'] in ('y', 'all'):
+                labs.append(f"alias:in-place-write:y-of-{tcol['stype']}-target:{tcol['r'].get('dtype', tcol['r'].get('kind'))}")
+        if case.get('cache'):
+            cc = case['cache']
+            labs.append(f"materialize-args:file={cc['file']}:col_stats={cc['stats']}")
+            labs.append(f"materialize-args:path={cc['shape']}")
+            if cc.get('again'):
+                labs.append('materialize-args:later-session-with-other-stats')
         if real_outcome != 'raises' and 'oracle-only' in real_outcome['ok']:
             labs.append('judged:oracle-only(too large for the Lean model)')
         for k, call in enumerate(case['calls'][:50]):
